@@ -2,6 +2,7 @@
 from lib import cfg
 from rules import common
 
+CRATES = ("agdb",)
 EXPLANATION = (
     "Static LOOP rule over the MIR of collections::multi_map and collections::map (the hashed containers behind aliases, "
     "indexes and key lookups): every natural loop (SCC) must carry a recognised structural termination witness: "
